@@ -255,6 +255,15 @@ LeakT(n, D) ==
           ELSE [n1 EXCEPT !.kids = [ i \in DOMAIN n.kids |-> LeakT(n.kids[i], D) ]]
 RECURSIVE StripCls(_)
 StripCls(n) == IF IsAtom(n) THEN n ELSE [n EXCEPT !.cls = "", !.kids = [ i \in DOMAIN n.kids |-> StripCls(n.kids[i]) ]]
+\* another live object that shares sub-objects with the called one sees the overwrite on the shared sub-objects only: it equals
+\* its former self except that bounds of sub-propositions named in the dictionary may have become the named value
+RECURSIVE LeakSome(_, _, _)
+LeakSome(b, a, D) ==
+  /\ b.k = a.k /\ b.id = a.id
+  /\ IF IsAtom(b) THEN a = b
+     ELSE /\ [a EXCEPT !.lo = b.lo, !.hi = b.hi, !.kids = b.kids] = b
+          /\ (<<a.lo, a.hi>> = <<b.lo, b.hi>> \/ (Has(D, b.id) /\ <<a.lo, a.hi>> = D[b.id]))
+          /\ Len(a.kids) = Len(b.kids) /\ \A i \in DOMAIN b.kids : LeakSome(b.kids[i], a.kids[i], D)
 KnownMarkers == {"KNOWN_assume_own_id_leak"}
 DictOps == {"evaluate", "evaluate_all", "assume"}
 \* one step: [h, op, dict, before, after, res, res_fresh, hooks, ...]; taint = handles whose state a known deviation changed
@@ -266,7 +275,8 @@ StepV(s, taint) ==
       changed == { h \in DOMAIN bf \ rebound : h \notin DOMAIN af \/ af[h] # bf[h] }
       \* the known deviation: the dictionary of THIS call overwrote bounds of sub-propositions it names; objects that share
       \* sub-objects with the called one (an extended configurator and its original) see the same overwrite
-      known == { h \in changed : s.op \in DictOps /\ h \in DOMAIN af /\ af[h] = LeakT(bf[h], D) /\ (s.h \in changed \/ h = s.h) }
+      known == { h \in changed : s.op \in DictOps /\ h \in DOMAIN af /\
+                     IF h = s.h THEN af[h] = LeakT(bf[h], D) ELSE (s.h \in changed /\ LeakSome(bf[h], af[h], D)) }
   IN [ v |-> Fail("store_unchanged", changed \ known = {})
              \cup (IF known # {} THEN {"KNOWN_assume_own_id_leak"} ELSE {})
              \cup Fail("no_unexplained_overwrite", \A k \in DOMAIN s.hooks :
